@@ -260,6 +260,30 @@ type kWithStr struct {
 	Name string
 }
 type kIface struct{ V interface{} }
+type kNamedStr string
+type kStrArr [2]string
+type kStrArrIn struct {
+	N int
+	P [3]string
+}
+
+// strPath builds the same string along four different construction paths (different backing arrays)
+func strPath(prefix string, i, p int) string {
+	switch p {
+	case 0:
+		return prefix + strconv.Itoa(i)
+	case 1:
+		return fmt.Sprintf("%s%d", prefix, i)
+	case 2:
+		b := []byte(prefix + strconv.Itoa(i))
+		return string(b)
+	}
+	var sb strings.Builder
+	sb.WriteString(prefix)
+	sb.WriteString(strconv.Itoa(i))
+	return strings.Clone(sb.String())
+}
+
 type kFloat struct{ F float64 }
 
 // heap / array laundering so that the key is not built in place from constants
@@ -329,6 +353,15 @@ func runC18(r *Run) {
 		}
 		return strings.Repeat(string(rune('a'+i%26)), i*(1+p-p)) + strconv.Itoa(i)
 	}, nil, true)
+	// a named string type is a string: equality is by contents, whatever the backing array
+	c18Run[kNamedStr](r, cs("named string type", false), func(i, p int) kNamedStr { return kNamedStr(strPath("id-", i, p)) }, nil, true)
+	// strings inside arrays (directly, and inside a struct) with a StringKey function
+	c18Run[kStrArr](r, c18Case{Type: "[2]string + StringKey", StringKey: "a|b", N: n / 4, Persist: true}, func(i, p int) kStrArr {
+		return kStrArr{strPath("a", i, p), strPath("b", i*7, (p+1)%4)}
+	}, func(k kStrArr) string { return k[0] + "|" + k[1] }, false)
+	c18Run[kStrArrIn](r, c18Case{Type: "struct{int;[3]string} + StringKey", StringKey: "n|p0|p1|p2", N: n / 4, Persist: true}, func(i, p int) kStrArrIn {
+		return kStrArrIn{N: i, P: [3]string{strPath("x", i, p), "", strPath("z", i%5, (p+2)%4)}}
+	}, func(k kStrArrIn) string { return strconv.Itoa(k.N) + "|" + strings.Join(k.P[:], "|") }, false)
 	// arrays and structs of scalars
 	c18Run[kArr](r, cs("[4]uint16", false), func(i, p int) kArr { return launder(kArr{uint16(i), uint16(i >> 16), 7, uint16(i * 3)}) }, nil, true)
 	c18Run[kPair](r, cs("struct{uint32;uint32}", false), func(i, p int) kPair { return launder(kPair{uint32(i), uint32(i) ^ 0xdeadbeef}) }, nil, true)
